@@ -171,7 +171,18 @@ def step (s : St) (line : String) : St × String :=
     | _, _ => (s, "bad-op")
   -- the local deletion of an expired shard on a real store: the unexpired shard of the same
   -- database keeps every series and point (judged on the implementation's side)
-  | ["localdel", _, _, _] => (s, "kept")
+  | ["localdel", _, mode, shared, only1] =>
+    let names (l : String) : List String := if l = "-" then [] else l.splitOn ";"
+    let sh := names shared
+    let o1 := names only1
+    let all := sh ++ o1
+    let ids (l : List String) : List Nat := l.map fun n => all.idxOf n
+    let target := ids all
+    let others2 : List (Option (List Nat)) := [some (ids sh)]
+    let others1 : List (Option (List Nat)) := if mode = "disabled" then [none] else others2
+    match InfluxVerif.Retention.deleteShardTwice target others1 others2 with
+    | (ab, some rm) => (s, s!"kept {sh.length} removed {rm.length} first={if ab then "abandoned" else "done"}")
+    | (_, none) => (s, "stuck")
   | ["pass", now, loc, fsg, fsh, fpr] =>
     match now.toInt?, allSome ((splitCsv loc).map String.toNat?), allSome ((splitCsv fsg).map String.toNat?),
           allSome ((splitCsv fsh).map String.toNat?) with
